@@ -3,7 +3,7 @@
 (* literal / reference to the other / inherited in every frame.  The chain is built frame by frame (AddFrame)  *)
 (* from the outside in; every state is one test case.                                                          *)
 EXTENDS Scoping, Json
-CONSTANTS MaxFrames, EmitCases
+CONSTANTS MaxFrames, EmitCases, Extended
 
 Kinds == {"let", "rec", "set", "with"}
 Lit(n, j) == [n |-> n, k |-> "lit", v |-> 10 * j + (IF n = "a" THEN 1 ELSE 2), m |-> ""]
@@ -12,11 +12,23 @@ InhB(n) == [n |-> n, k |-> "inh", v |-> 0, m |-> ""]
 ChoicesA(j) == { <<>>, <<Lit("a", j)>>, <<RefB("a", "b")>>, <<InhB("a")>> }
 ChoicesB(j) == { <<>>, <<Lit("b", j)>>, <<RefB("b", "a")>>, <<InhB("b")>> }
 BindSets(j) == { x \o y : x \in ChoicesA(j), y \in ChoicesB(j) }
+\* extended model: inherit (s) a, literal-set bindings, and a directly applied function as the outermost frame
+SetB(j) == [n |-> "s", k |-> "setv", v |-> 0, m |-> "", sv |-> << [n |-> "a", k |-> "lit", v |-> 50 + j, m |-> ""] >>]
+InhFrom(n) == [n |-> n, k |-> "inhfrom", v |-> 0, m |-> "s"]
+Formal(n, d, a) == [n |-> n, k |-> "formal", v |-> d, m |-> "", arg |-> a]
+ExtBinds(j) == { x \o y \o z : x \in {<<>>, <<Lit("a", j)>>, <<RefB("a", "b")>>, <<InhFrom("a")>>},
+                                y \in {<<>>, <<Lit("b", j)>>, <<InhFrom("b")>>},
+                                z \in {<<>>, <<SetB(j)>>} }
+FormalBinds == { x \o y : x \in {<<>>, <<Formal("a", 91, 0)>>, <<Formal("a", 0, 92)>>, <<Formal("a", 91, 92)>>},
+                          y \in {<<>>, <<Formal("b", 93, 0)>>, <<Formal("b", 93, 94)>>} }
+
 
 VARIABLE ch
 Init == ch = <<>>
 AddFrame == /\ Len(ch) < MaxFrames
-            /\ \E k \in Kinds, b \in BindSets(Len(ch) + 1) : ch' = Append(ch, [kind |-> k, binds |-> b])
+            /\ IF ~Extended THEN \E k \in Kinds, b \in BindSets(Len(ch) + 1) : ch' = Append(ch, [kind |-> k, binds |-> b])
+               ELSE \/ \E k \in Kinds, b \in ExtBinds(Len(ch) + 1) : ch' = Append(ch, [kind |-> k, binds |-> b])
+                    \/ (ch = <<>> /\ \E b \in FormalBinds : ch' = <<[kind |-> "formals", binds |-> b]>>)
 Next == AddFrame
 
 L == Len(ch)
